@@ -55,6 +55,59 @@ CLAIMS = {
     design_ref="DESIGN.md section 5 C17",
     note="As C09. The real reset draws a random seed; the harness sets the seed explicitly on both sides.",
     technique="Lean 4 invariant proof by induction over the continue loop + differential correspondence + lockstep oracle"),
+ "C11": dict(
+    category="proof",
+    text=("The global store of the model carries its change-tracking invariant in its type (every store value the "
+          "interpreter can hold satisfies: while a batch is observed, a global that differs from its value at the start "
+          "of the batch is recorded, and no name is recorded twice); theorems lift this to the notifications of a "
+          "completed outermost continue (every changed global is handed over once with its current value), to host "
+          "assignments (immediate, once per observer), to observer removal and to load. Tie: transcripts with "
+          "observer churn. Oracle: notifications vs polled differences on the real code."),
+    design_ref="DESIGN.md section 5 C11",
+    note=("As C09. A notification whose value equals the polled value before the call is ignored on both sides (the "
+          "engine decides 'changed' by Rc identity, which the model does not have)."),
+    technique="Lean 4 invariant carried by the store type + theorems + differential correspondence + polling oracle"),
+ "C12": dict(
+    category="proof",
+    text=("Theorems about callExternalFunction for every state: a function bound as not look-ahead-safe is not invoked "
+          "while a snapshot exists (only the rewind flag is raised) and is refused with an error inside string "
+          "evaluation; a safe function is invoked anywhere with the top n stack values in push order, exactly one "
+          "call event, counter +1; unbound externals divert to the ink fallback or give an error, never a panic. "
+          "Tie: transcripts (calls logged with arguments and lines delivered) under five binding configurations. "
+          "Oracle: a hand-written timing probe with known call timing, refusal / unbound behaviour on generated programs."),
+    design_ref="DESIGN.md section 5 C12",
+    note="As C09. Safe and unsafe bindings are not compared with each other (an unsafe function ends the line before it).",
+    technique="Lean 4 theorems over the external-call model + differential correspondence + timing probe"),
+ "C16": dict(
+    category="proof",
+    text=("Proved: completion of a host evaluation restores the pending output stream exactly and drops what the "
+          "function left on the evaluation stack; the returned text is the concatenation of the function's lines; "
+          "unknown / blank names are refused unchanged. NOT proved: the frame property of the steps executed inside "
+          "the function (partial); it is decided by the tie (normalised save after every step) and by the lockstep "
+          "oracle with evaluations injected at random boundaries, each repeated."),
+    design_ref="DESIGN.md section 5 C16",
+    note="As C09. Only functions the generator marks pure are evaluated; arguments have the declared parameter types.",
+    technique="Lean 4 theorems (partial) + differential correspondence + lockstep oracle"),
+ "C10": dict(
+    category="proof",
+    text=("Theorems over the flow map: a switch parks the current flow untouched and touches no other parked flow; "
+          "switching away and back is the identity on the whole core; the continue loop (steps, snapshots, rewinds) "
+          "never changes a parked flow. NOT proved: interleaving_eq_solo (partial) — decided by the oracle that "
+          "compares every interleaving of two flows (3+3 operations, with save/load, switch-away-and-back, "
+          "switch-to-default variants) with the solo runs, and by the tie incl. the normalised multi-flow save."),
+    design_ref="DESIGN.md section 5 C10",
+    note="As C09. Flow scripts are disjoint in variables and knots (generator guarantee).",
+    technique="Lean 4 theorems over the flow map (partial) + differential correspondence + exhaustive interleaving oracle"),
+ "C08": dict(
+    category="proof",
+    text=("Proved: every state-changing entry point is refused while a time-limited continue is unfinished; a blocking "
+          "continue always completes a paused one and leaves the story quiescent; the recursion count is balanced "
+          "over pauses. NOT proved (stated in Proofs/C08.lean): the full sliced = blocking equivalence (partial) — "
+          "decided by the oracle over every single pause position, pause-after-every-step and random schedules on "
+          "the virtual step clock, compared line by line and over the whole story with the unsliced run, and by the tie."),
+    design_ref="DESIGN.md section 5 C08",
+    note="As C09. Time is the virtual step clock (hook); the real clock truncates to whole milliseconds.",
+    technique="Lean 4 theorems (partial) + differential correspondence + exhaustive pause-position oracle"),
 }
 
 REASONS_PENDING = "check not built yet in this revision of /verif (see DESIGN.md section 9.1 for the order of work)"
